@@ -108,7 +108,7 @@ def branch_taken(m, a, b):
     raise ValueError(m)
 
 
-def step(s, i, hw, outcome=0):
+def step(s, i, hw, outcome=0, choice=None):
     m = i.mnemonic
     if m == "set":
         set_reg(s, i.reg, i.imm.value, hw)
@@ -173,7 +173,14 @@ def step(s, i, hw, outcome=0):
             raise Fault("outside-unit-module")
         if s.UM[v] is not None:
             raise Fault("double-allocation")
-        p = min_unused(s.USED)
+        # which unused physical qubit is taken is the implementation's business ("any unused one"): ``choice`` is what it
+        # took; the semantics only demand that it was not in use.  Without a choice: the smallest unused one.
+        if choice is None:
+            p = min_unused(s.USED)
+        else:
+            p = choice
+            if p < 0 or p in s.USED:
+                raise Fault("physical-qubit-chosen-is-in-use")
         s.UM[v] = p
         s.USED.add(p)
     elif m == "qfree":
